@@ -79,10 +79,10 @@ class Ctx:
         self.t_solver += time.time() - t0
         return r
 
-    def _fresh_check(self, extra):
+    def _fresh_check(self, extra, retry=True, factor=1):
         """non-incremental solver (nlsat) for nonlinear branch conditions"""
         s = z3.Solver()
-        s.set("timeout", self.fresh_timeout_ms)
+        s.set("timeout", factor * self.fresh_timeout_ms)
         for a in self.assumptions:
             s.add(a)
         for p in self.path_condition():
@@ -91,7 +91,7 @@ class Ctx:
         t0 = time.time()
         self.nq += 1
         r = s.check()
-        if r == z3.unknown:
+        if r == z3.unknown and retry:
             # once more with four times the budget before the path is given up as inconclusive (a loaded machine must not
             # turn a feasibility question into exit 2)
             s.set("timeout", 4 * self.fresh_timeout_ms)
@@ -938,6 +938,8 @@ class SymArr(np.ndarray):
             kwargs["where"] = wh.view(np.ndarray).astype(bool)
         args = [i.view(np.ndarray) if isinstance(i, SymArr) else i for i in inputs]
         if out is not None:
+            if sym and any(isinstance(o, np.ndarray) and o.dtype != object for o in out):
+                raise ModelGap("a ufunc writes symbolic values into a float64 out= buffer created outside the stand-ins")
             kwargs["out"] = tuple(o.view(np.ndarray) if isinstance(o, SymArr) else o for o in out)
         res = getattr(ufunc, method)(*args, **kwargs)
         if out is not None:
